@@ -31,6 +31,7 @@ pub fn dispatch(fs: &[String]) -> String {
             }
             esc(&outs.join("\u{1f}"))
         }
+        "expr" => expr_op(a(1), a(2), a(3) == "1"),
         "group" => group(a(1)),
         _ => "bad-op".to_string(),
     }
@@ -121,4 +122,64 @@ pub fn group(req: &str) -> String {
         "all_scripts": e(g.export_all_scripts()),
     });
     out.to_string()
+}
+
+
+fn warns_compact(ws: &[tc::parse::ParseError]) -> String {
+    let mut o = String::from("[");
+    for (i, w) in ws.iter().enumerate() {
+        if i > 0 {
+            o.push(',');
+        }
+        o.push_str(&format!(
+            "{}@{}:{}-{}:{}",
+            w.code(),
+            w.location.start.line,
+            w.location.start.utf16_col,
+            w.location.end.line,
+            w.location.end.utf16_col
+        ));
+    }
+    o.push(']');
+    o
+}
+
+/// `expr`: parse `src` with the real expression parser, dump the AST, and run the real generator on it.
+/// scopes: comma list of `<has_tree 0|1>:<lvalue kind 0..4>`; data fields `s<i>` become scope refs.
+fn expr_op(src: &str, scopes: &str, prefer_obj: bool) -> String {
+    let (e, warns, idx, pos) = tc::verif_hooks::verif_parse_expr(src, prefer_obj);
+    let mut out = vec![];
+    let scs: Vec<tc::verif_hooks::VerifScope> = scopes
+        .split(',')
+        .filter(|x| !x.is_empty())
+        .map(|x| {
+            let mut it = x.split(':');
+            tc::verif_hooks::VerifScope {
+                has_update_path_tree: it.next() == Some("1"),
+                lvalue: it.next().and_then(|v| v.parse().ok()).unwrap_or(0),
+            }
+        })
+        .collect();
+    match e {
+        None => {
+            out.push("none".to_string());
+            out.push(warns_compact(&warns));
+            out.push(format!("{} {} {}", idx, pos.line, pos.utf16_col));
+        }
+        Some(mut e) => {
+            crate::dump::convert_scopes(&mut e, scs.len());
+            out.push(esc(&crate::dump::expr(&e, false)));
+            out.push(warns_compact(&warns));
+            out.push(format!("{} {} {}", idx, pos.line, pos.utf16_col));
+            match tc::verif_hooks::proc_gen_expr(&e, &scs) {
+                Ok(pieces) => {
+                    for p in pieces {
+                        out.push(esc(&p));
+                    }
+                }
+                Err(e) => out.push(format!("generr {}", esc(&e.message))),
+            }
+        }
+    }
+    out.join("\t")
 }
